@@ -39,15 +39,16 @@ type Ctx struct {
 	sample map[string]any
 	nontri bool
 	crashAt int // >0: crash enumeration point requested by the runner (sim-crash family)
+	noSpec  bool // the family judges by its own oracle: no witnessed-linearization mode (which forces single-transaction batches)
 }
 
 func (c *Ctx) NewSim(cfg SimCfg, pol *Policy) *Sim {
-	if c.Prop == "C02" || c.Prop == "C03" {
+	if (c.Prop == "C02" || c.Prop == "C03") && !c.noSpec {
 		// spec mode: one transaction per batch so that the state before and after every transaction is observed
 		pol.Batch = "single"
 	}
 	s := NewSim(cfg, pol, vh.Mix(c.Seed, c.Fam.Name, c.Idx, len(c.sims)), c.Rep)
-	s.spec = c.Prop == "C02" || c.Prop == "C03"
+	s.spec = (c.Prop == "C02" || c.Prop == "C03") && !c.noSpec
 	s.logOn = c.LogOn
 	c.sims = append(c.sims, s)
 	return s
